@@ -5,6 +5,7 @@ import (
 	"go/constant"
 	"go/token"
 	"go/types"
+	"os"
 	"strings"
 
 	"golang.org/x/tools/go/ssa"
@@ -94,9 +95,61 @@ func resolve(v ssa.Value, env pathEnv) ssa.Value {
 				continue
 			}
 		}
+		// a variable that lives in a cell because a closure (a deferred clean-up) reads it: assigned once
+		if u, ok := v.(*ssa.UnOp); ok && u.Op == token.MUL {
+			if a, isA := u.X.(*ssa.Alloc); isA {
+				if x := singleStore(a); x != nil {
+					v = x
+					continue
+				}
+			}
+		}
 		break
 	}
 	return v
+}
+
+// singleStore: the one value ever stored in the cell a — its address goes nowhere but to loads, that store, and closures which only
+// read it; nil otherwise.
+func singleStore(a *ssa.Alloc) ssa.Value {
+	var val ssa.Value
+	n := 0
+	for _, r := range *a.Referrers() {
+		switch x := r.(type) {
+		case *ssa.Store:
+			if x.Addr != ssa.Value(a) {
+				return nil // the address itself is stored somewhere
+			}
+			val = x.Val
+			n++
+		case *ssa.UnOp:
+			if x.Op != token.MUL {
+				return nil
+			}
+		case *ssa.DebugRef:
+		case *ssa.MakeClosure:
+			fn, _ := x.Fn.(*ssa.Function)
+			if fn == nil {
+				return nil
+			}
+			for k, b := range x.Bindings {
+				if b != ssa.Value(a) || k >= len(fn.FreeVars) {
+					continue
+				}
+				for _, fr := range *fn.FreeVars[k].Referrers() {
+					if u, isLoad := fr.(*ssa.UnOp); !isLoad || u.Op != token.MUL {
+						return nil
+					}
+				}
+			}
+		default:
+			return nil
+		}
+	}
+	if n != 1 {
+		return nil
+	}
+	return val
 }
 
 // classify a path string value: dest = filePathToFile(key); temp = dest + const; other.
@@ -475,8 +528,56 @@ func c18r3(c *core.Ctx) {
 	p := c.P
 	tk := p.Func("db", "toEntityKey")
 	if tk == nil {
+		// the key function under another signature (a method of Entity, say): it is the module function whose result SaveEntity
+		// hands to the storage as the key
+		if sv := p.Func("db", "(*database).SaveEntity"); sv != nil {
+			core.Instrs(sv, func(i ssa.Instruction) {
+				if !core.IsInvoke(i, qStorage, "Set") {
+					return
+				}
+				for _, s := range core.Sources(core.Args(i)[0]) {
+					if call, ok := s.(*ssa.Call); ok {
+						if g := call.Call.StaticCallee(); g != nil && core.InModule(g) && g.Blocks != nil && len(g.Params) == 1 {
+							tk = g
+						}
+					}
+				}
+			})
+		}
+	}
+	if tk == nil {
+		if c18r3Inline(c) {
+			return
+		}
 		c.Undecided("toEntityKey", token.NoPos, "not found")
 		return
+	}
+	// the name inside the key function: its string parameter, or the Name of its Entity parameter
+	byEntity := core.TypeIs(tk.Params[0].Type(), mod+"/db.Entity")
+	isNameInKey := func(v ssa.Value) bool {
+		if !byEntity {
+			return v == ssa.Value(tk.Params[0])
+		}
+		if base, ok := core.FieldLoad(v, mod+"/db.Entity", "Name"); ok {
+			if base == ssa.Value(tk.Params[0]) {
+				return true
+			}
+			// a value receiver is spilled to a local first
+			if a, isA := base.(*ssa.Alloc); isA {
+				n, fromParam := 0, false
+				for _, r := range *a.Referrers() {
+					if st, isSt := r.(*ssa.Store); isSt && st.Addr == ssa.Value(a) {
+						n++
+						fromParam = st.Val == ssa.Value(tk.Params[0])
+					}
+				}
+				return n == 1 && fromParam
+			}
+		}
+		if fl, ok := v.(*ssa.Field); ok && fl.X == ssa.Value(tk.Params[0]) {
+			return fieldIsName(fl)
+		}
+		return false
 	}
 	suffix := ""
 	full := false
@@ -492,7 +593,7 @@ func c18r3(c *core.Ctx) {
 						suffix = sfx
 					}
 					if call, ok := b.X.(*ssa.Call); ok && core.IsCall(call, "encoding/hex.EncodeToString") {
-						if cv, ok := call.Call.Args[0].(*ssa.Convert); ok && cv.X == ssa.Value(tk.Params[0]) {
+						if cv, ok := call.Call.Args[0].(*ssa.Convert); ok && isNameInKey(cv.X) {
 							full = true
 						}
 					}
@@ -512,7 +613,7 @@ func c18r3(c *core.Ctx) {
 	})
 	// the same key assembled in a buffer: hex.Encode(key, []byte(name)) fills key[:EncodedLen(len(name))], the constant suffix is copied
 	// behind it, and the buffer is exactly that long
-	if !full {
+	if !full && !byEntity {
 		var enc *ssa.Call
 		core.Instrs(tk, func(i ssa.Instruction) {
 			if call, ok := i.(*ssa.Call); ok && core.IsCall(call, "encoding/hex.Encode") {
@@ -565,6 +666,13 @@ func c18r3(c *core.Ctx) {
 	c.Check(full && !lossy && suffix != "", "entity-key-injective@"+fname(tk), tk.Pos(), "key = hex(name) in full + "+fmt.Sprintf("%q", suffix),
 		"the entity key is not the complete hex encoding of the name plus a constant suffix (it is truncated, hashed or otherwise shortened): different names can map to the same file")
 	c.Check(!strings.Contains(suffix, ":") && suffix != "", "entity-key-suffix-safe", tk.Pos(), "the suffix contains no ':' (which the path function strips)", "the entity suffix contains ':' or is empty")
+	c18r3Rest(c, suffix)
+	c18r3Sites(c, tk, byEntity)
+}
+
+// c18r3Rest: the listing and the loader agree with the key (suffix = the constant suffix of entity keys).
+func c18r3Rest(c *core.Ctx, suffix string) {
+	p := c.P
 	// listing suffix
 	ent := p.Func("db", "(*database).Entities")
 	if ent != nil {
@@ -582,6 +690,35 @@ func c18r3(c *core.Ctx) {
 				same = true
 			}
 		})
+		if !same {
+			// the loader under another name and signature: the module function that reads the storage, called by both
+			loader := func(f *ssa.Function) *ssa.Function {
+				var l *ssa.Function
+				if f == nil {
+					return nil
+				}
+				core.Instrs(f, func(i ssa.Instruction) {
+					g := core.Callee(i)
+					if g == nil || !core.InModule(g) || g.Blocks == nil {
+						return
+					}
+					core.Instrs(g, func(j ssa.Instruction) {
+						if core.IsInvoke(j, qStorage, "Get") {
+							l = g
+						}
+					})
+				})
+				return l
+			}
+			ewn := p.Func("db", "(*database).EntityWithName")
+			if l := loader(ent); l != nil && l == loader(ewn) {
+				same = true
+			}
+			// ... or the loader written out (inlined) in both: each reads the storage itself and takes the name from the key it read
+			if !same && ewn != nil && inlineLoaderNamesFromKey(ent) && inlineLoaderNamesFromKey(ewn) {
+				same = true
+			}
+		}
 		c.Check(same, "listing-loader", ent.Pos(), "listed keys are loaded by the loader EntityWithName uses", "Entities does not load entries with the common loader")
 	} else {
 		c.Undecided("Entities", token.NoPos, "not found")
@@ -634,6 +771,10 @@ func c18r3(c *core.Ctx) {
 	} else {
 		c.Undecided("entityForKey", token.NoPos, "loader not found")
 	}
+}
+
+func c18r3Sites(c *core.Ctx, tk *ssa.Function, byEntity bool) {
+	p := c.P
 	for _, spec := range []struct{ name, op string }{{"SaveEntity", "Set"}, {"DeleteEntity", "Delete"}, {"EntityWithName", "Get"}} {
 		f := p.Func("db", "(*database)."+spec.name)
 		if f == nil {
@@ -649,6 +790,50 @@ func c18r3(c *core.Ctx) {
 			})
 		}
 		check(f, func(v ssa.Value) bool {
+			if byEntity {
+				// the entity handed to the key function is the one this method was given, or one made up of the name it was given
+				named := func(a *ssa.Alloc) bool {
+					n, ok := 0, false
+					for _, r := range *a.Referrers() {
+						fa, isFA := r.(*ssa.FieldAddr)
+						if !isFA {
+							continue
+						}
+						if _, isName := core.FieldAddrOf(fa, mod+"/db.Entity", "Name"); !isName {
+							continue
+						}
+						for _, rr := range *fa.Referrers() {
+							if st, isSt := rr.(*ssa.Store); isSt && st.Addr == ssa.Value(fa) {
+								n++
+								ok = st.Val == ssa.Value(f.Params[1])
+							}
+						}
+					}
+					return n == 1 && ok
+				}
+				return core.AllSources(v, func(s ssa.Value) bool {
+					if s == ssa.Value(f.Params[1]) && spec.name != "EntityWithName" {
+						return true
+					}
+					if u, isU := s.(*ssa.UnOp); isU && u.Op == token.MUL {
+						if a, isA := u.X.(*ssa.Alloc); isA {
+							if spec.name == "EntityWithName" {
+								return named(a)
+							}
+							// the spilled parameter
+							n, fromParam := 0, false
+							for _, r := range *a.Referrers() {
+								if st, isSt := r.(*ssa.Store); isSt && st.Addr == ssa.Value(a) {
+									n++
+									fromParam = st.Val == ssa.Value(f.Params[1])
+								}
+							}
+							return n == 1 && fromParam
+						}
+					}
+					return false
+				})
+			}
 			if spec.name == "EntityWithName" {
 				return v == ssa.Value(f.Params[1])
 			}
@@ -665,6 +850,184 @@ func c18r3(c *core.Ctx) {
 		})
 		c.Check(ok, "keyed-by-entity-key:"+spec.name, f.Pos(), spec.name+" keys by toEntityKey(name)", spec.name+" does not key by toEntityKey(name): save, lookup and delete address different files")
 	}
+}
+
+// c18r3Inline: there is no key function (it was written out, or turned into a helper that the normaliser inlined): the key
+// expression is examined where it is used — SaveEntity's Set, DeleteEntity's Delete and the loader call of EntityWithName must
+// each address  hex(name) + one constant suffix, name being the entity's / the parameter. Returns false when the sites were not found.
+func c18r3Inline(c *core.Ctx) bool {
+	p := c.P
+	ld := p.Func("db", "(*database).entityForKey")
+	type site struct {
+		spec string
+		f    *ssa.Function
+		key  ssa.Value
+		pos  token.Pos
+	}
+	var sites []site
+	for _, spec := range []struct{ name, op string }{{"SaveEntity", "Set"}, {"DeleteEntity", "Delete"}, {"EntityWithName", "Get"}} {
+		f := p.Func("db", "(*database)."+spec.name)
+		if f == nil || len(f.Params) < 2 {
+			return false
+		}
+		var key ssa.Value
+		var pos token.Pos
+		n := 0
+		core.Instrs(f, func(i ssa.Instruction) {
+			if core.IsInvoke(i, qStorage, spec.op) {
+				key, pos = core.Args(i)[0], i.Pos()
+				n++
+				return
+			}
+			if spec.op == "Get" && ld != nil && core.Callee(i) == ld {
+				for k, a := range core.CallOf(i).Args {
+					if k < len(ld.Params) && isString(ld.Params[k].Type()) {
+						key, pos = a, i.Pos()
+						n++
+					}
+				}
+			}
+		})
+		if n != 1 || key == nil {
+			return false
+		}
+		sites = append(sites, site{spec.name, f, key, pos})
+	}
+	suffix := ""
+	allFull := true
+	for _, st := range sites {
+		f := st.f
+		// the entity the method was given (possibly copied into locals), or one made up of the name it was given
+		var isEntity func(v ssa.Value, depth int) bool
+		// the local holds nothing but such an entity: stored whole once, or made up of the name (a composite literal)
+		allocIsEntity := func(a *ssa.Alloc, depth int) bool {
+			whole, fields, ok := 0, 0, true
+			for _, r := range *a.Referrers() {
+				switch x := r.(type) {
+				case *ssa.Store:
+					if x.Addr == ssa.Value(a) {
+						whole++
+						ok = ok && isEntity(x.Val, depth+1)
+					}
+				case *ssa.FieldAddr:
+					if _, isName := core.FieldAddrOf(x, mod+"/db.Entity", "Name"); !isName {
+						continue
+					}
+					for _, rr := range *x.Referrers() {
+						if sto, isSt := rr.(*ssa.Store); isSt && sto.Addr == ssa.Value(x) {
+							fields++
+							ok = ok && st.spec == "EntityWithName" && sto.Val == ssa.Value(f.Params[1])
+						}
+					}
+				}
+			}
+			return ok && whole+fields == 1
+		}
+		isEntity = func(v ssa.Value, depth int) bool {
+			if depth > 6 {
+				return false
+			}
+			return core.AllSources(v, func(s ssa.Value) bool {
+				if s == ssa.Value(f.Params[1]) {
+					return st.spec != "EntityWithName"
+				}
+				u, isU := s.(*ssa.UnOp)
+				if !isU || u.Op != token.MUL {
+					return false
+				}
+				a, isA := u.X.(*ssa.Alloc)
+				return isA && allocIsEntity(a, depth)
+			})
+		}
+		isName := func(v ssa.Value) bool {
+			if st.spec == "EntityWithName" && v == ssa.Value(f.Params[1]) {
+				return true
+			}
+			if base, ok := core.FieldLoad(v, mod+"/db.Entity", "Name"); ok {
+				if a, isA := base.(*ssa.Alloc); isA {
+					return allocIsEntity(a, 0)
+				}
+				return isEntity(base, 0)
+			}
+			if fl, ok := v.(*ssa.Field); ok && fieldIsName(fl) {
+				return isEntity(fl.X, 0)
+			}
+			return false
+		}
+		full := false
+		sfx := ""
+		srcs := core.Sources(st.key)
+		if len(srcs) == 1 {
+			if b, ok := srcs[0].(*ssa.BinOp); ok && b.Op == token.ADD {
+				if k, isK := core.ConstString(b.Y); isK {
+					sfx = k
+				}
+				if call, ok := b.X.(*ssa.Call); ok && core.IsCall(call, "encoding/hex.EncodeToString") {
+					if cv, ok := call.Call.Args[0].(*ssa.Convert); ok && isName(cv.X) {
+						full = true
+					}
+				}
+			}
+		}
+		if os.Getenv("HCSA_DEBUG") != "" {
+			fmt.Fprintf(os.Stderr, "c18r3Inline %s key=%v srcs=%v full=%v sfx=%q\n", st.spec, st.key, srcs, full, sfx)
+			if !full {
+				f.WriteTo(os.Stderr)
+			}
+		}
+		c.Check(full && sfx != "", "keyed-by-entity-key:"+st.spec, st.pos, st.spec+" keys by hex(name) in full + "+fmt.Sprintf("%q", sfx), st.spec+" does not key by the complete hex encoding of the entity's name plus a constant suffix: save, lookup and delete address different files, or different names map to the same file")
+		if suffix == "" {
+			suffix = sfx
+		}
+		if sfx != suffix || !full {
+			allFull = false
+		}
+	}
+	c.Check(allFull && suffix != "", "entity-key-injective@inline", sites[0].pos, "the three operations use key = hex(name) in full + "+fmt.Sprintf("%q", suffix),
+		"the entity key is not the same complete hex encoding of the name plus one constant suffix in save, lookup and delete")
+	c.Check(!strings.Contains(suffix, ":") && suffix != "", "entity-key-suffix-safe", sites[0].pos, "the suffix contains no ':' (which the path function strips)", "the entity suffix contains ':' or is empty")
+	c18r3Rest(c, suffix)
+	return true
+}
+
+// inlineLoaderNamesFromKey: f reads the storage itself ( Get(key) ) and the Name of the entity it hands back is decoded from that key.
+func inlineLoaderNamesFromKey(f *ssa.Function) bool {
+	var key ssa.Value
+	n := 0
+	core.Instrs(f, func(i ssa.Instruction) {
+		if core.IsInvoke(i, qStorage, "Get") {
+			key = core.Args(i)[0]
+			n++
+		}
+	})
+	if n != 1 {
+		return false
+	}
+	fromKey := false
+	core.Instrs(f, func(i ssa.Instruction) {
+		st, ok := i.(*ssa.Store)
+		if !ok {
+			return
+		}
+		if _, isName := core.FieldAddrOf(st.Addr, mod+"/db.Entity", "Name"); !isName {
+			return
+		}
+		walkOperands(st.Val, 8, func(v ssa.Value) {
+			if pk := core.CallResult(v, 0, func(ci ssa.Instruction) bool { return core.IsCall(ci, "encoding/hex.DecodeString") }); pk != nil {
+				walkOperands(core.CallOf(pk).Args[0], 8, func(a ssa.Value) {
+					if valIs(a, key) {
+						fromKey = true
+					}
+				})
+			}
+		})
+	})
+	return fromKey
+}
+
+func isString(t types.Type) bool {
+	b, ok := t.Underlying().(*types.Basic)
+	return ok && b.Kind() == types.String
 }
 
 func fieldIsName(f *ssa.Field) bool {
